@@ -297,10 +297,15 @@ class LinearPolynomial(BaseDeferred):
         new_constant_term = self.constant_term
 
         for key, value in self.coeffs.items():
+            variable = key
             with try_compute:
                 key = key.wait()
             if isinstance(key, BaseDeferred):
                 key = key.get_current_best_estimate()
+            if isinstance(variable, Promise) and isinstance(key, BaseDeferred) and not isinstance(key, LinearPolynomial):
+                # The promise (e.g. the link base) is settled with a value that is still being computed. Keep
+                # the promise itself as the variable, so that it cancels against its other occurrences
+                key = variable
 
             if isinstance(key, LinearPolynomial):
                 new_coeffs += [(key1, value1 * value) for key1, value1 in key.coeffs.items()]
@@ -415,6 +420,10 @@ class Promise(BaseDeferred):
 
     def get_current_best_estimate(self):
         if self.settled:
-            return self.value
-        else:
-            return self
+            value = self.value
+            if isinstance(value, BaseDeferred):
+                value = value.get_current_best_estimate()
+            if not isinstance(value, BaseDeferred):
+                return value
+        # Not known yet, or known only as a value that is still being computed: the promise stays the variable
+        return self
